@@ -111,7 +111,21 @@ func (r *Rule) ResourceName() string {
 
 // IsStatReusable checks whether current rule is "statistically" equal to the given rule.
 func (r *Rule) IsStatReusable(newRule *Rule) bool {
-	return r.Resource == newRule.Resource && r.ControlBehavior == newRule.ControlBehavior && r.ParamsMaxCapacity == newRule.ParamsMaxCapacity && r.DurationInSec == newRule.DurationInSec && r.MetricType == newRule.MetricType
+	if !(r.Resource == newRule.Resource && r.MetricType == newRule.MetricType && r.ParamsMaxCapacity == newRule.ParamsMaxCapacity) {
+		return false
+	}
+	// The counters are kept per value of the selected parameter: with another selector they are the
+	// counters of other values (a modified rule on parameter 1 that took over the counters of a removed
+	// rule on parameter 0 limited its values by what was in flight for the other parameter).
+	if r.ParamIndex != newRule.ParamIndex || r.ParamKey != newRule.ParamKey {
+		return false
+	}
+	if r.MetricType == Concurrency {
+		// ControlBehavior and DurationInSec only take effect for QPS rules: a change of theirs must not
+		// cost a concurrency rule the counters of the requests that are in flight
+		return true
+	}
+	return r.ControlBehavior == newRule.ControlBehavior && r.DurationInSec == newRule.DurationInSec
 }
 
 // Equals checks whether current rule is consistent with the given rule.
